@@ -76,10 +76,17 @@ func c14Trace(in Sx) Sx {
 	}
 	tf.Close()
 	defer os.Remove(tf.Name())
+	// the traced run starts its own jailed worker: give it a private TMPDIR and remove it afterwards
+	td, err := os.MkdirTemp("", "c14st-d-")
+	if err != nil {
+		return L(S("no-temp"))
+	}
+	defer os.RemoveAll(td)
 	cmd := exec.Command("strace", "-f", "-qq", "-xx", "-s", "4096", "-o", tf.Name(),
 		"-e", "trace=chown,lchown,fchownat,chmod,fchmodat,utimensat,utimes,futimesat,utime,setxattr,lsetxattr,access,faccessat,faccessat2,"+
 			"symlink,symlinkat,mkdir,mkdirat,mknod,mknodat,link,linkat,open,openat,creat",
 		exe, "run", "1404", in.String())
+	cmd.Env = append(os.Environ(), "TMPDIR="+td)
 	outb, err := cmd.Output()
 	if err != nil {
 		return L(S("strace-failed"), S(err.Error()))
